@@ -147,7 +147,7 @@ def intent(cfg, op):
     raise ValueError(op)
 
 
-KEYS = [b"k", "k", b"", "", b" ", b"a b", b"a\r\nb", b"a\nget x", b"a\r\nset inj 0 0 1\r\nx", b"a\x00b", b"\x01", b"\x7f", "\xe9", "€", "\udcff",
+KEYS = [b"k", "k", b"p:k", b"y", "p:", b"", "", b" ", b"a b", b"a\r\nb", b"a\nget x", b"a\r\nset inj 0 0 1\r\nx", b"a\x00b", b"\x01", b"\x7f", "\xe9", "€", "\udcff",
         b"x" * 249, b"x" * 250, b"x" * 251, b"\tk", b"k\x0b", "k\x0c", b"noreply", b"get", b"0"]
 VALUES = [b"v", b"", b"\r\n", b"END\r\n", b"x\r\nset inj 0 0 1\r\ny\r\n", "str", "\xe9", 5, -5, True, b"VALUE k 0 1\r\nz\r\nEND\r\n", b"x" * 5000]
 EXPIRES = [0, 1, -1, 2 ** 63 - 1, -2 ** 63, True, False, "5", 5.0, None, b"5"]
